@@ -4,6 +4,7 @@
 -/
 import FordModel.Reader
 import FordModel.Lemmas.Split
+import FordModel.Lemmas.Reader
 namespace Ford.C02
 open Ford
 
@@ -11,5 +12,49 @@ open Ford
     the input back, for every string and separator. -/
 theorem quoteSplit_join (sep : Char) (s : Str) : joinSep sep (quoteSplit sep s) = s := by
   simp [quoteSplit, join_qsplitAux]
+
+/-- `quote_split` (two flags, two-character look-ahead for doubled quotes) splits
+    exactly where Fortran's lexical scanner is outside a character literal: it
+    equals the one-state-machine specification `splitSpec` for every input, so a
+    `;` (or `,`) inside a literal - whatever else the literal contains: the other
+    quote, doubled quotes, `!`, `&` - never separates statements, and one outside
+    always does. -/
+theorem quoteSplit_lexical (sep : Char) (hs : isQuote sep = false) (s : Str) :
+    quoteSplit sep s = splitSpec sep s .out [] :=
+  qsplitAux_eq_spec sep hs s false false [] .out .out
+
+/-- The comment / doc-mark pattern `^([^"'!]|'[^']*'|"[^"]*")*(!MARK.*)$` has the
+    deterministic reading `comScan`: the scanner returns `i` iff the pattern can
+    match with its last group starting at `i`. -/
+theorem comScan_iff (mark l : Str) (i : Nat) : comScan mark l = some i ↔ ComMatch mark l i := by
+  constructor
+  · intro h
+    obtain ⟨p, s, hl, hp, hi, hs⟩ := comScanAux_some mark l .out 0 i h
+    exact ⟨p, s, hl, hp, by omega, hs⟩
+  · rintro ⟨p, s, hl, hp, hi, hs⟩
+    subst hl
+    simp [comScan, comScanAux_of_atoms mark p s 0 hp, hs, hi]
+
+/-- ... hence the match is unique: it does not depend on how the regex engine
+    explores the alternatives, and only the first `!` outside the quote atoms
+    can start a comment or doc comment. -/
+theorem comMatch_unique (mark l : Str) (i j : Nat) (hi : ComMatch mark l i) (hj : ComMatch mark l j) :
+    i = j := by
+  have h1 := (comScan_iff mark l i).2 hi
+  have h2 := (comScan_iff mark l j).2 hj
+  rw [h1] at h2
+  exact Option.some.inj h2
+
+/-- A `!` inside a closed literal is never a comment start; the first one outside is. -/
+example : comScan [] "x = 'a!b' ! c".toList = some 10 := by decide
+example : comScan ['!'] "x = 'a!!b' !! c".toList = some 11 := by decide
+/-- literal still open at the `!` : no match -/
+example : comScan [] "x = 'a ! b".toList = none := by decide
+
+/-- Historical witness of the defect repaired by the `fix:` commit 389e6bb: the old
+    previous-character test called the closed literal `''` unterminated; the
+    two-state scanner the code uses now does not. -/
+theorem untermOld_witness :
+    untermOld "''".toList false none none = true ∧ unterminated "''".toList = false := by decide
 
 end Ford.C02
